@@ -161,6 +161,11 @@ FAMILIES = {
 }
 
 
+# (module, liveness config, flag whose FALSE must violate a temporal property, that property)
+LIVE = [("MCXsCommands.tla", "MC_proc_live_c.cfg", "LatestWins", "L_Restored"),
+        ("MCXsGenerators.tla", "MC_proc_live_g.cfg", "CompactByRef", "L_Restored")]
+
+
 def write_cfgs():
     for fam, (mod, pat, fn, cfgs, _, _) in FAMILIES.items():
         for name in cfgs:
@@ -176,6 +181,9 @@ def check(tier):
     for fam, (mod, pat, fn, cfgs, quick, _) in FAMILIES.items():
         for name in (quick if tier == "quick" else list(cfgs)):
             jobs.append((mod, pat.format(name)))
+    # liveness twins of the commands and generators models (FairSpec: weak fairness of the serve loop and of the tasks; no VIEW, no
+    # CONSTRAINT): the server catches up, every call is answered, invalid definitions are reported, the table is restored
+    jobs += [(m, c) for m, c, _, _ in LIVE]
     # two TLC runs at a time, 4 workers each (other work runs on this machine: <= 8 workers)
     from concurrent.futures import ThreadPoolExecutor
     with ThreadPoolExecutor(max_workers=2) as ex:
@@ -197,6 +205,14 @@ def check_spec_mutants(d):
             res.append({"module": mod, "cfg": cname, "flag": flag, "value": val, "invariant": inv, "caught": caught})
             if not caught:
                 raise ToolError(f"spec mutant {mod}/{cname}/{flag}={val} does not violate {inv}: the invariant is vacuous\n" + out[-2000:])
+    for mod, cfg, flag, prop in LIVE:
+        cfgp = os.path.join(d, f"livemut_{cfg}")
+        open(cfgp, "w").write(open(os.path.join(SPEC, cfg)).read().replace(f"{flag} = TRUE", f"{flag} = FALSE"))
+        out, _, _, _ = tlc(mod, cfgp, workers=8, timeout=900)
+        caught = f"Temporal property {prop} was violated" in out or "Temporal properties were violated" in out
+        res.append({"module": mod, "cfg": cfg, "flag": flag, "value": False, "invariant": prop, "caught": caught})
+        if not caught:
+            raise ToolError(f"liveness spec mutant {mod}/{cfg}/{flag} does not violate {prop}\n" + out[-2000:])
     return res
 
 
